@@ -296,6 +296,9 @@ def mk_setup(keep, user_dir, docs, same_names):
         for d, doc in enumerate(ctx.notes["documents"]):
             path = ("/docs/d%d/test.md" % d) if same_names else ("/docs/doc%d.md" % d)
             doc.fields[STRUCTS["ParsedTestFile"].index("path")] = mk_pathbuf(path)
+            dcfg = field_of(doc, "config")
+            pre = dcfg.fields[STRUCTS["DocumentConfig"].index("prepend")]
+            pre.items[:] = [mk_pathbuf("bad.md") if isinstance(x, Opaque) and x.what == "path:bad" else x for x in pre.items]
         ctx.notes["doc_paths"] = [pstr(field_of(doc, "path")) for doc in ctx.notes["documents"]]
         # every test case brings its own variables, among them names scrut documents as set by itself ("set afresh for every test case")
         for doc in ctx.notes["documents"]:
@@ -326,6 +329,9 @@ def post(ctx, args, kind, value):
     for d in docs:
         if d.kind in ("hard-error", "aborted"):
             n_calls = d.d + 1
+            break
+        if d.kind in c20.EARLY:
+            n_calls = d.d             # the run ends before this document's executor is called — after its directories were created
             break
     if len(calls) != n_calls:
         return False
@@ -369,6 +375,8 @@ def configs(max_total, two_docs):
     for keep, user_dir in FLAGS:
         for n in range(1, max_total + 1):
             for kind, detail in c20.doc_variants(n, False):
+                if kind == "setup-error":
+                    continue          # the real init_test_file runs here (over the ledger): it does not fail
                 out.append((keep, user_dir, [Doc(0, n, 0, 0, kind, detail)], False))
         if two_docs:
             for same in (False, True):
